@@ -235,6 +235,13 @@ class IntronGraph:
                     res.append(v)
         return sorted(res)
 
+    # substitute intron must not overlap introns adjacent to the collapsed one, otherwise the exon between them vanishes
+    def can_collapse(self, to_collapse, substitute_vertex):
+        next_introns = [v for v in self.outgoing_edges[to_collapse] if not is_terminal_vertex(v)]
+        prev_introns = [v for v in self.incoming_edges[to_collapse] if not is_starting_vertex(v)]
+        return all(substitute_vertex[1] + 1 < v[0] for v in next_introns) and \
+               all(v[1] + 1 < substitute_vertex[0] for v in prev_introns)
+
     # merge vertex to its substitute, remove if isolated
     def collapse_vertex(self, to_collapse, substitute_vertex):
         self.outgoing_edges[substitute_vertex].update(self.outgoing_edges[to_collapse])
@@ -277,7 +284,7 @@ class IntronGraph:
             out_introns = self.outgoing_edges[current_intron]
             substitute_dict = self.collapse_vertex_set(out_introns)
             for i in sorted(substitute_dict.keys()):
-                if i in to_remove:
+                if i in to_remove or not self.can_collapse(i, substitute_dict[i]):
                     continue
                 to_remove.add(i)
                 self.collapse_vertex(i, substitute_dict[i])
@@ -293,7 +300,7 @@ class IntronGraph:
             inc_introns = self.incoming_edges[current_intron]
             substitute_dict = self.collapse_vertex_set(inc_introns)
             for i in sorted(substitute_dict.keys()):
-                if i in to_remove:
+                if i in to_remove or not self.can_collapse(i, substitute_dict[i]):
                     continue
                 to_remove.add(i)
                 self.collapse_vertex(i, substitute_dict[i])
